@@ -323,6 +323,8 @@ fn twin_names_async_enter_on_poll() {
     kani::cover!(true);
 }
 
+// NOT REGISTERED: symbolic execution of the in_span adapter inside the async state machine does
+// not finish in 40 min (DESIGN.md §1b); kept for a stronger engine.
 #[kani::proof]
 #[kani::unwind(5)]
 #[kani::stub(fastrace::local::LocalSpan::enter_with_local_parent, rec_local)]
